@@ -653,6 +653,16 @@ func (env *Environment) handleHooks(workflow workflow.Role, trigger string, weig
 	for k := range callsMapForAwait {
 		allWeightsSet[k] = callable.Hooks{}
 	}
+	// Calls which are triggered in this very moment and awaited later in it: their await weight must be
+	// visited too, otherwise the moment ends without collecting them (unless something else happens to
+	// trigger or await at that weight).
+	for _, hooks := range hooksMapForTrigger {
+		for _, call := range hooks.FilterCalls() {
+			if awaitName, awaitWeight := callable.ParseTriggerExpression(call.GetTraits().Await); awaitName == trigger {
+				allWeightsSet[awaitWeight] = callable.Hooks{}
+			}
+		}
+	}
 	allWeights := allWeightsSet.GetWeights()
 
 	filteredWeights := make([]callable.HookWeight, 0)
